@@ -491,7 +491,7 @@ var kinds = []kindSpec{
 	{"UnknownCRD-ReplicaSet", bUnknownRS, true},
 }
 
-// scenarios of a tier. quick: 12 chains x n in 1..3, one flavour each (rotating); thorough: 20 chains x n in 1..4 x 4 flavours.
+// scenarios of a tier. quick: 12 chains x n in 1..3, one flavour each (rotating); thorough: 20 chains x (n in 1..3 x 4 flavours + n=4 x 1 flavour).
 func scenarios(tier string) []*scenario {
 	var out []*scenario
 	for ki, k := range kinds {
@@ -504,7 +504,7 @@ func scenarios(tier string) []*scenario {
 		}
 		for n := 1; n <= maxN; n++ {
 			for fi := range flavours {
-				if tier != "thorough" && fi != (ki+n)%len(flavours) {
+				if (tier != "thorough" || n == 4) && fi != (ki+n)%len(flavours) {
 					continue
 				}
 				sc := k.b(n, flavours[fi])
